@@ -204,9 +204,15 @@ fn expr_strategy() -> impl Strategy<Value = Expr> {
 }
 
 /// offsets relative to now: on and 1 ns beside every boundary, and far away
-fn offset_strategy(leeway: i128) -> impl Strategy<Value = Option<i128>> {
+fn offset_strategy(leeway: i128, now: i128) -> impl Strategy<Value = Option<i128>> {
     let far = 1_000_000_000i128 * 1_000_000_000;
+    // the ends of jiff's Timestamp range ("never expires" / "always valid" sentinels) and the
+    // values within one leeway of them, as offsets from now
+    let max = 253_402_207_200i128 * 1_000_000_000 + 999_999_999 - now;
+    let min = -377_705_023_201i128 * 1_000_000_000 - now;
+    let l = leeway.min(far);
     prop_oneof![
+        1 => proptest::sample::select(vec![max, max - 1, max - l, max - l + 1, max - l - 1, min, min + 1, min + l, min + l - 1, min + l + 1].into_iter().filter(|x| *x >= min && *x <= max).collect::<Vec<i128>>()).prop_map(Some),
         3 => Just(None),
         2 => Just(Some(0)),
         2 => Just(Some(1)),
@@ -234,7 +240,7 @@ fn case_strategy() -> impl Strategy<Value = Case> {
     ((-10_000_000_000i64..10_000_000_000), 0u32..1_000_000_000, leeway).prop_flat_map(|(now_s, now_ns, (leeway_s, leeway_ns))| {
         let l = leeway_s as i128 * 1_000_000_000 + leeway_ns as i128;
         let opt_name = || prop_oneof![2 => Just(None), 3 => name_strategy().prop_map(Some)];
-        (opt_name(), opt_name(), opt_name(), offset_strategy(l), offset_strategy(l), offset_strategy(l), opt_name(), expr_strategy()).prop_map(
+        (opt_name(), opt_name(), opt_name(), offset_strategy(l, now_s as i128 * 1_000_000_000 + now_ns as i128), offset_strategy(l, now_s as i128 * 1_000_000_000 + now_ns as i128), offset_strategy(l, now_s as i128 * 1_000_000_000 + now_ns as i128), opt_name(), expr_strategy()).prop_map(
             move |(iss, sub, aud, exp, nbf, iat, jti, expr)| Case { now_s, now_ns, leeway_s, leeway_ns, claims: ClaimsSpec { iss, sub, aud, exp, nbf, iat, jti }, expr },
         )
     })
@@ -350,7 +356,7 @@ pub fn def() -> PropertyDef {
     PropertyDef {
         id: "C11",
         level: "exploration",
-        rule: "proptest cases: RegisteredClaims (each field absent/present; exp/nbf at now, now+-1ns, now+-leeway, now+-leeway+-1ns, near, far) x now x leeway (0, 1 ns, up to 10^8 s) x validator expression trees up to depth 3 over {Time, TimeWithLeeway, HasExpiry, ForSubject, FromIssuer, ForAudience, NoValidation, and_then, Vec, boxed slice, Box, Rc, Arc, map (through a wrapper type with a decoy field)}; oracle: an independent evaluator over i128 nanoseconds - validate is Ok iff it accepts, otherwise exactly ClaimsError; end to end on every back end and both purposes: unseal returns the claims iff the evaluator accepts, else ClaimsError. Non-trivial iff a timestamp lies on or 1 ns beside a boundary, or the tree has >= 2 combinators; both outcomes are counted",
+        rule: "proptest cases: RegisteredClaims (each field absent/present; exp/nbf at now, now+-1ns, now+-leeway, now+-leeway+-1ns, near, far, and the ends of jiff's range +-1ns / +-leeway) x now x leeway (0, 1 ns, up to 10^8 s) x validator expression trees up to depth 3 over {Time, TimeWithLeeway, HasExpiry, ForSubject, FromIssuer, ForAudience, NoValidation, and_then, Vec, boxed slice, Box, Rc, Arc, map (through a wrapper type with a decoy field)}; oracle: an independent evaluator over i128 nanoseconds - validate is Ok iff it accepts, otherwise exactly ClaimsError; end to end on every back end and both purposes: unseal returns the claims iff the evaluator accepts, else ClaimsError. Non-trivial iff a timestamp lies on or 1 ns beside a boundary, or the tree has >= 2 combinators; both outcomes are counted",
         assumptions: vec!["TimeWithLeeway only where now +- leeway is representable in jiff", "Time::valid_now() only with margins of whole days"],
         subs,
     }
